@@ -193,7 +193,7 @@ theorem quiet_of_slab {s s' : Streams} (h : s'.store.slab = s.store.slab) : Quie
   rw [← h]; exact g
 
 /-- a stream function that keeps the key and keeps (or empties) the receive queue -/
-def Keeps (f : Stream → Stream) : Prop :=
+@[reducible] def Keeps (f : Stream → Stream) : Prop :=
   ∀ st, (f st).key = st.key ∧ ((f st).pendingRecv = st.pendingRecv ∨ (f st).pendingRecv = [])
 
 theorem quiet_modStream (s : Streams) (k : Nat) (f : Stream → Stream) (hf : Keeps f) :
@@ -262,5 +262,11 @@ theorem quiet_insert (s : Streams) (x : Stream) (hx : x.pendingRecv = []) :
     split at g
     · cases g; exact Or.inl hx
     · cases g
+
+theorem Quiet.ite {s a b : Streams} {c : Prop} [Decidable c] (ha : Quiet s a) (hb : Quiet s b) :
+    Quiet s (if c then a else b) := by
+  split
+  · exact ha
+  · exact hb
 
 end H2V.Lemmas.ConnHttpP
